@@ -324,4 +324,7 @@ Section AnyField.
     destruct (vm p (mmul V (smat s))) as [[a0 a1] a2]. destruct (vm c (mmul V (smat s))) as [[b0 b1] b2].
     vnormalize. apply vec3_eq; ring.
   Qed.
+
+  Lemma smat_diag_comm (s : vec3 K) (a b c : K) : mmul (mdiag K a b c) (smat s) = mmul (smat s) (mdiag K a b c).
+  Proof. dvec s. unfold smat. vnormalize. apply mat3_ext; ring. Qed.
 End AnyField.
